@@ -672,3 +672,43 @@ Example finv_examples :
   fmul 18446744073709551615 (finv 18446744073709551615) = 1 /\
   fmul 31415926535897932384626433832795028841971693993751058209749445923 (finv 31415926535897932384626433832795028841971693993751058209749445923) = 1.
 Proof. vm_compute. repeat split; reflexivity. Qed.
+
+(* ---- valid contributions are accepted (the checks reject nothing they should not) ---- *)
+
+Lemma honest_contribution_accepted c n acct sender poly g :
+  gfind acct (nd_gens n) = Some g -> poly <> [] -> List.length poly = g_thr g ->
+  exists n', on_contribute c n acct sender (horner poly (idz (nd_id n))) poly
+             = DOk (n', (horner (g_poly g) (idz sender), g_poly g)).
+Proof.
+  intros Hg Hne Hl. unfold on_contribute. rewrite Hg. rewrite (verify_own poly (nd_id n) Hne). cbn [negb].
+  unfold vvec_ok. rewrite Hl, Nat.eqb_refl, orb_true_r. cbn [negb]. eexists. reflexivity.
+Qed.
+
+Lemma honest_reply_accepted c n acct peer poly g :
+  gfind acct (nd_gens n) = Some g -> poly <> [] -> List.length poly = g_thr g ->
+  afind N.eqb peer (g_shares g) = None ->
+  exists n', accept_reply c n acct peer (horner poly (idz (nd_id n))) poly = DOk n'.
+Proof.
+  intros Hg Hne Hl Hd. unfold accept_reply. rewrite Hg. rewrite (verify_own poly (nd_id n) Hne). cbn [negb].
+  unfold vvec_ok. rewrite Hl, Nat.eqb_refl, orb_true_r. cbn [negb]. rewrite Hd. eexists. reflexivity.
+Qed.
+
+(* ---- the prepare phase never fails for a name nobody has a generation for ---- *)
+
+Lemma on_prepare_fresh n acct thr parts poly :
+  gfind acct (nd_gens n) = None -> exists n', on_prepare n acct thr parts poly = DOk n' /\ nd_id n' = nd_id n.
+Proof. intros H. unfold on_prepare. rewrite H. eexists. split; reflexivity. Qed.
+
+Lemma prepare_all_fresh acct thr parts poly : forall todo cl,
+  NoDup todo ->
+  (forall p, In p todo -> exists n, cfind p cl = Some n /\ gfind acct (nd_gens n) = None) ->
+  fst (prepare_all acct thr parts poly todo cl) = true.
+Proof.
+  induction todo as [|p todo IH]; intros cl ND H; cbn [prepare_all]; [reflexivity|].
+  inversion ND as [|p' t' Hnin ND']; subst.
+  destruct (H p (or_introl eq_refl)) as (np & Ep & Gp). rewrite Ep.
+  destruct (on_prepare_fresh np acct thr parts (poly p) Gp) as (np' & Eo & Hid). rewrite Eo.
+  apply IH; [exact ND'|]. intros q Hq.
+  destruct (H q (or_intror Hq)) as (nq & Eq & Gq). exists nq. split; [|exact Gq].
+  rewrite cfind_cput_other; [exact Eq|]. rewrite Hid, (cfind_id _ _ _ Ep). intros ->. contradiction.
+Qed.
